@@ -375,6 +375,18 @@ def long_lived(v, srv, sb, cfg, out):
             if k != "ACK" or f["blk"] != blk:
                 failed = (blk, k, f)
                 break
+            if blk == 4:
+                # a foreign endpoint asks to write the very file this upload is creating, with an option value the server
+                # cannot honour (--overwrite is on): whatever it is told, the upload in progress is not its to disturb
+                q = N._sock(srv.family, timeout=0.3)
+                q.sendto(N.enc_req(N.WRQ, "long_lived.bin", options=[("blksize", 7)]), srv.addr)
+                try:
+                    buf, qsrc = q.recvfrom(2048)
+                    if N.dec(buf)[0] in ("OACK", "ACK"):
+                        q.sendto(N.enc_error(0, b"never mind"), qsrc[:2])
+                except (socket.timeout, OSError):
+                    pass
+                q.close()
             if not neighbour_done and time.time() - t0 > 7.0:
                 trb = N.download(srv.addr, "mtB.bin", [("timeout", 1)], family=srv.family)
                 neighbour_done = trb.completed
@@ -388,7 +400,9 @@ def long_lived(v, srv, sb, cfg, out):
             pass
         out["long_lived"] = {"seconds": round(time.time() - t0, 1), "neighbour_served": neighbour_done, "completed": failed is None and stored == body}
         if failed or stored != body:
-            v.violation("C12/long-lived-transfer-cut", f"{cfg}: an upload running for {time.time() - t0:.0f} s (timeout 1 s, a block every 0.5 s) was cut when another endpoint's request was accepted: block {failed and failed[0]} answered {failed and failed[1]} {str(failed and failed[2])[:60]}",
+            what = (f"was cut when another endpoint's request was accepted: block {failed[0]} answered {failed[1]} {str(failed[2])[:60]}" if failed
+                    else f"was acknowledged to the end but the stored file is {'missing' if stored is None else 'different'} (another endpoint had sent a WRQ for the same name with blksize=7 meanwhile)")
+            v.violation("C12/long-lived-transfer-cut" if failed else "C12/upload-disturbed-by-foreign-request", f"{cfg}: an upload running for {time.time() - t0:.0f} s (timeout 1 s, a block every 0.5 s) {what}",
                         {"engine": "net", "config": cfg, "scenario": "long-lived upload + late neighbour", "failed_at": str(failed)[:120]})
     except Exception as e:
         out["long_lived"] = f"harness trouble: {type(e).__name__}: {e}"
@@ -421,7 +435,7 @@ def run(tier):
             mt_out = {}
             # on a server of its own (every other request would touch whatever state the listener shares between transfers)
             mt_sb = ctx.sandbox("c12mt")
-            mt_srv = N.Server(tftpd, mt_sb["srv"], single=single, ip=ip, logdir=mt_sb["logs"]).start()
+            mt_srv = N.Server(tftpd, mt_sb["srv"], single=single, ip=ip, overwrite=True, logdir=mt_sb["logs"]).start()
             mt_thread = threading.Thread(target=lambda a=(v, mt_srv, mt_sb, cfg, mt_out): (mixed_timeouts(*a), long_lived(*a)))
             mt_thread.start()
             # exhaustive interleavings, K = 2 (and 3 in thorough)
